@@ -353,7 +353,8 @@ def epPattern (r : Rng) : APos × Rng :=
   let capf : Int := if which == 1 then pf + 1 else pf - 1
   -- own king
   let (km, r) := r.below 6
-  let (kd, r) := r.below 7
+  let (kd0, r) := r.below 12
+  let kd := if kd0 ≥ 7 then 0 else kd0      -- adjacent to the pawn more often
   let d : Int := (kd : Int) + 1
   let (sg, r) := r.below 2
   let s : Int := if sg == 0 then 1 else -1
@@ -375,12 +376,12 @@ def epPattern (r : Rng) : APos × Rng :=
   let b := place b (sq ef er) ⟨!w, .king⟩
   let b := if b.any (fun x => x.2 == ⟨!w, .king⟩) then b else place b (sq ((ef + 5) % 8) ((er + 3) % 8)) ⟨!w, .king⟩
   -- enemy sliders on the critical lines
-  let (ns, r) := r.below 3
+  let (ns, r) := r.below 4
   let rec sl (n : Nat) (b : Placement) (r : Rng) : Placement × Rng :=
     match n with
     | 0 => (b, r)
     | n + 1 =>
-      let (m, r) := r.below 4
+      let (m, r) := r.below 7
       let (dd, r) := r.below 7
       let e : Int := (dd : Int) + 1
       let (sg, r) := r.below 2
@@ -391,6 +392,9 @@ def epPattern (r : Rng) : APos × Rng :=
         | 0 => (capf + s * e, r5, ⟨!w, if q == 0 then .rook else .queen⟩)
         | 1 => (capf + s * e, r5 + dir * e, ⟨!w, if q == 0 then .bishop else .queen⟩)
         | 2 => (pf + s * e, r5 + dir * e, ⟨!w, if q == 0 then .bishop else .queen⟩)
+        | 3 => (capf + s * e, r5 - dir * e, ⟨!w, if q == 0 then .bishop else .queen⟩)   -- behind the capturer, diagonal
+        | 4 => (pf + s * e, r5 - dir * e, ⟨!w, if q == 0 then .bishop else .queen⟩)     -- behind the captured pawn, diagonal
+        | 5 => (capf, r5 - dir * e, ⟨!w, if q == 0 then .rook else .queen⟩)             -- behind the capturer, file
         | _ => (capf, r5 + dir * e, ⟨!w, if q == 0 then .rook else .queen⟩)
       sl n (if onBoard f k && sq f k != sq pf r6 && sq f k != sq pf (r6 + dir) then place b (sq f k) pc else b) r
   let (b, r) := sl ns b r
